@@ -25,8 +25,8 @@ CHECKS = {
              technique="CrossHair (z3) symbolic execution of reindex_database + write-back as one inductive step from every pair of invariant-satisfying per-page states (files, index, hash map), plain and explicit-path runs",
              note="stubs: recording repo (SQL deletions/converters not claimed), three-line-page reader for walk_zorg_page, _check_for_modified_notes no-op, in-memory FS, hash = identity; 2 pages"),
  "C13": dict(design="§17 C13", engine="XH",
-             technique="CrossHair (z3) over the crash schedule: the solver chooses the pre-state pair, the command and the boundary between two external effects (session commit, write of next_ids.json / hash map / whitelist / a page; also a torn file write) at which the run is killed; the real message-bus loop, reindex_database / create_database, ZIDManager and the ZID write-back run for that choice over a transactional recording session and an in-memory FS, the same command runs again, and the end state is judged against the statement",
-             note="stubs: transactional recording session (durable at commit; SQL-level page content and remove_file_by_name's partial commits not claimed), three-line-page reader, _check_for_modified_notes no-op, in-memory FS with atomic / torn writes and atomic replace, hash = identity; 2 pages x 1 note; one interruption; replay kills the real command with os._exit at every real effect boundary"),
+             technique="CrossHair (z3) over the crash schedule: the solver chooses the pre-state pair, the command and the boundary between two external effects (session commit, write of next_ids.json / hash map / whitelist / a page; also a torn file write) at which the run is killed; the real message-bus loop, reindex_database / create_database, ZIDManager and the ZID write-back run for that choice over a transactional recording session and an in-memory FS, the same command runs again, and the end state is judged against the statement; family converge_real runs the same kind of schedule over the unpatched zorg (real SQLite, SQLRepo, ANTLR compiler) in a temporary directory",
+             note="model family stubs: transactional recording session (durable at commit; SQL-level page content and remove_file_by_name's partial commits not claimed), three-line-page reader, _check_for_modified_notes no-op, in-memory FS with atomic / torn writes and atomic replace, hash = identity; 2 pages x 1 note; one interruption; replay kills the real command with os._exit at every real effect boundary"),
  "C18": dict(design="§6 C18", engine="XH",
              technique="CrossHair (z3) symbolic execution of expand_file_group_paths/_paths_from_file_group against an independent recursive flattening; clock stub with local time and zone offset",
              note="stub: clock (datetime.now with/without tz); structures, date patterns and argument lists from the stated finite shapes"),
